@@ -59,7 +59,7 @@ ASSUMPTIONS = [
     "(n+8)*2^-23 relative (float32 summation order), exact for auto_po2 "
     "unless within the tie slack",
 ]
-BUDGET_S = {"quick": 40, "thorough": 800}
+BUDGET_S = {"quick": 30, "thorough": 800}
 REQUIRED_LABELS = {
     t: ["binary", "ternary", "alpha:none", "alpha:const", "alpha:auto",
         "alpha:auto_po2", "use_01", "rank1", "rank2", "rank3", "rank4",
